@@ -131,7 +131,7 @@ func bodyLimits(rep *kit.Report, scratch string) {
 	})
 	bufs := []int{1, 2, 3, 0, -1, 32768} // 0 -> L, -1 -> L+1
 	for ti, table := range tables {
-		for _, mode := range []string{"", "unix", "tcp"} {
+		for _, mode := range []string{"", "unix", "tcp", "tcp-two-backends-with-retries"} {
 			proxied := mode != ""
 			var cf strings.Builder
 			cf.WriteString("a.test:8080 {\n\tlimits {\n")
@@ -143,6 +143,9 @@ func bodyLimits(rep *kit.Report, scratch string) {
 				fmt.Fprintf(&cf, "\tproxy / unix:%s\n", sock)
 			} else if mode == "tcp" {
 				fmt.Fprintf(&cf, "\tproxy / %s\n", tln.Addr())
+			} else if mode == "tcp-two-backends-with-retries" {
+				// (with several backends and retries the proxy reads the whole body before the first attempt)
+				fmt.Fprintf(&cf, "\tproxy / %s localhost:%d {\n\t\ttry_duration 1s\n\t}\n", tln.Addr(), tln.Addr().(*net.TCPAddr).Port)
 			} else {
 				cf.WriteString("\tverif_probe\n")
 			}
